@@ -1,6 +1,7 @@
 """C17 — Iter pipelines / Invoke builders: generators, implementation runner, shrinker."""
 import itertools
 import json
+import types
 import os
 import random
 
@@ -44,13 +45,24 @@ MANIFEST = dict(
          "object afterwards and whether close() was called on it, several pipelines and suspended iterators over "
          "one source object, several LIVE streams of one spec / derived specs pulled in interleaved order each against its solo "
          "reference, the boltons generator models against the installed boltons called directly, repr/behaviour of a re-used "
-         "prefix spec) through the compiled Lean driver.",
+         "prefix spec) through the compiled Lean driver. Since the audit: (independent reference) the per-prefix traces are monotone "
+         "and prefixes of the composition of the list functions, checkTake/checkAll accept only that composition whenever it evaluates, "
+         "the driver also compares the implementation with composeE directly; slice/chunked/windowed/split/unique list functions are "
+         "characterised element-wise / by first occurrence / by group contents; (SKIP/STOP) only Iter(subspec) gives them a meaning, "
+         "map yields them, filter/takewhile see a falsy key — in the model and in generated cases; (arguments) what slice/limit/chunked/"
+         "windowed/split make of None/bools/negative/zero/fractional/string arguments and WHEN a bad one is rejected (builder call, "
+         "glomit, first next) with the pulls made by earlier stages; first(default=<spec-like>) evaluates the default against the stream; "
+         "filter(Check(…)), keys without a truth value; type of all()'s result; class of chained specs.",
     note="partial because itertools' islice/takewhile/dropwhile/chain/tee/zip are C code modelled from documentation "
          "and observed behaviour (islice mirrors CPython's cnt/next counters; tee as a shared buffer with one read index per tee), "
          "validated only by the correspondence; boltons' four helpers are modelled from their source and proved equal to the "
          "transducers on finite upstreams (the model itself is tied to the installed boltons by differential execution); "
          "Python's generator suspension is modelled by recursion with fuel; a resumed take over a source others read in between "
-         "is proved piecewise (c17_resume + c17_model_checks_take), the whole step checker only for fresh steps. Trusted: Lean "
+         "is proved piecewise (c17_resume + c17_model_checks_take), the whole step checker only for fresh steps; all()/first() are "
+         "terminal methods checked by facts (Pipe(self, list) / (self, First(key, default))), not builder operations of the heap model; "
+         "keys are adapted per stage by Model functions (Fn.asFilterKey / asPredicate / ofCheck), Check's other conditions (type, "
+         "instance_of, equal_to, one_of) are not modelled; exact pull counts are compared with the model (agree), the property "
+         "checker bounds them by the data-dependent least prefix. Trusted: Lean "
          "kernel + {propext, Classical.choice, Quot.sound}; extractor; harness/driver. Domain: stream elements "
          "are None/ints/bools/integral floats/strings/lists/tuples/instances of four user classes, with object identity "
          "(no SKIP/STOP objects as data, no NaN), chunked/windowed size "
@@ -96,7 +108,24 @@ RULE = ('type-directed: the element type (int / list / tuple) is tracked through
         'derived | two derived) x ALL interleavings of 2+2 (quick) / 3+3, 2+2+2, 1+4 (thorough) pulls, streams opened lazily or up front; '
         'after every event the stream is checked against its solo reference. Boltons cases: chunked_iter / windowed_iter / split_iter / '
         'unique_iter of the installed boltons called directly on an instrumented iterator vs the code-shaped Lean generators '
-        '(items, end, pulls per next, pulls by the call itself). distinct = distinct (spec, source, k, mode / schedule)')
+        '(items, end, pulls per next, pulls by the call itself) and vs the list function. READINGS of the property text: '
+        '(R1) "honouring SKIP, STOP": the SKIP / STOP objects mean something where Iter(subspec) looks at what the subspec gave '
+        '(for Iter() the item itself) and nowhere else — map yields them as items, for filter / takewhile / dropwhile / first a key '
+        'that gives them is a falsy key, unique / split treat them as values; generated: skip2 / stop3 as subspec, map function and key of '
+        'every stage, SKIP / STOP objects lying in the source, sentinel=SKIP / STOP. (R2) the sentinel is an object (is, not ==). '
+        '(R3) "returns a new spec": of the class of the spec it was called on (a user subclass of Iter is generated; type(self)(…) is a '
+        'fact), all() returns a LIST (type(res) is list is observed), first(key, default) hands default to a Call as an ARGUMENT: a '
+        'spec-like default (T, Val(c)) is evaluated against the stream (generated: default=T gives the live iterator). (R4) arguments: '
+        'every value kind (None, bools, negative / zero / positive ints, whole and fractional floats, numeric and other strings) for '
+        'slice (all arities) / limit / chunked / windowed / split maxsplit, bare, after a windowed stage and before another stage: the '
+        'class of the exception AND when it is raised (builder call / inside glom() / at the first next()) AND how far the source was '
+        'pulled by then. (R5) filter(key) keeps an item iff Check(key, default=SKIP) passes and the item is not the SKIP object: a key '
+        'result whose bool() raises is dropped silently by filter and raises in takewhile / dropwhile / first / split; filter(Check(validate, '
+        'default)) uses the Check itself (fails only on `is False` or an exception; default other than SKIP keeps the item, none raises '
+        'CheckError). (R6) quantifier: random chains up to length 3 (quick) / 4 (thorough), exhaustive up to 2 / 3 (+4 on one source); '
+        '"infinite" sources are 40 items followed by a Budget exception. (R7) laziness is checked as pulls <= the least prefix that '
+        'determines the answer (data-dependent); equality of pull counts with the model is part of the correspondence. '
+        'distinct = distinct (spec, source, k, mode / schedule)')
 TRUSTED = ["itertools (islice, takewhile, dropwhile, chain, map, filter, tee, zip): modelled from documentation/observed behaviour, "
            "validated only by the correspondence",
            "boltons.iterutils chunked_iter / windowed_iter / split_iter / unique_iter: modelled from their source (Model/C17Boltons.lean), "
@@ -104,15 +133,18 @@ TRUSTED = ["itertools (islice, takewhile, dropwhile, chain, map, filter, tee, zi
            "boltons.iterutils.first: next(filter(key, it), default), from its source",
            "CPython generator suspension (modelled by structural recursion with fuel)",
            "CPython object identity for values without an explicit identity (small-int cache, interned one-character strings, empty tuple)"]
-ASSUMPTIONS = ['stream elements are None, ints, bools, integral floats, strings, lists, tuples, instances of four harness classes '
-               '(plain / __eq__ always True / __eq__ raises / __eq__ returns an object without a truth value); '
-               'SKIP/STOP only as results of the base subspec; no NaN',
-               'chunked/windowed size >= 1, islice step >= 1, maxsplit != 0; a single split separator is None, a number or a string',
+ASSUMPTIONS = ['stream elements are None, ints, bools, integral floats, strings, lists, tuples, the SKIP / STOP objects, a live '
+               'iterator object (opaque), instances of five harness classes (plain / __eq__ always True / __eq__ raises / __eq__ '
+               'returns an object without a truth value / __bool__ raises); no NaN',
+               'a single split separator is None, a number or a string; stages after split(sep, 0) do not look into the iterator it '
+               'hands out; T-expressions are not used as callable separators / Check validators (they are callable objects, not predicates)',
                'no hash collision between an identity-hashed instance and another key',
                'infinite sources are observed through a pull budget of %d items' % 40,
                'split(maxsplit=0) yields the iterator object itself: outside the value domain, not generated',
                'the source after a run is observed on targets that are their own iterator; a source that raises '
                'at its end is not asked beyond its last item',
+               'reuse and streams cases use stages whose callbacks do not raise inside glomit (limit(-1), windowed(-1) are '
+               'exercised by the args cases, where the timing is modelled by runTakeG)',
                'in streams cases every stream has its own source object (a source shared by suspended iterators is the reuse class); '
                'a stream that has ended is not asked again']
 
@@ -151,6 +183,10 @@ def catalogue():
         'none': lambda x: None,
         'zero': lambda x: 0,
         'one': lambda x: 1,
+        'skip2': lambda x: SKIP if (type(x) is int and x == 2) else x,    # SKIP / STOP as the RESULT of a function:
+        'stop3': lambda x: STOP if (type(x) is int and x == 3) else x,    # only Iter(f) itself gives them a meaning
+        'nobool2': lambda x: dec(NOBOOL) if (type(x) is int and x == 2) else x,   # a key result without a truth value
+        'pos': lambda x: x > 0,                                                  # a validator for Check: a bool, or TypeError
         'tofloat': lambda x: float(x) if type(x) is int else x,      # a subspec result that EQUALS an int
         'tobool': lambda x: bool(x) if type(x) is int else x,
         'skip_odd': lambda x: SKIP if (type(x) is int and x % 2) else x,
@@ -211,7 +247,13 @@ class EqOdd(object):
     __hash__ = object.__hash__
 
 
-CLASSES = [Plain, Wild, EqRaises, EqOdd]
+class NoBool(object):
+    """array-like: it has no truth value"""
+    def __bool__(self):
+        raise ValueError('the truth value of this object is ambiguous')
+
+
+CLASSES = [Plain, Wild, EqRaises, EqOdd, NoBool]
 _MEMO = {}       # ref number -> object            (one case)
 _REG = {}        # id(object) -> ref number
 
@@ -224,6 +266,13 @@ def begin_case():
 def _enc_plain(v):
     if v is None:
         return None
+    import glom
+    if v is glom.SKIP:
+        return {'k': 'SKIP'}
+    if v is glom.STOP:
+        return {'k': 'STOP'}
+    if isinstance(v, types.GeneratorType) or (hasattr(v, '__next__') and hasattr(v, '__iter__')):
+        return {'g': True}              # a live iterator object that turned up as a value
     if type(v) is bool:
         return {'b': v}
     if type(v) is int:
@@ -251,6 +300,9 @@ def enc(v):
 def _dec_fresh(j):
     if j is None:
         return None
+    if 'k' in j:
+        import glom
+        return glom.SKIP if j['k'] == 'SKIP' else glom.STOP
     if 'i' in j:
         v = j['i']
         return v if -5 <= v <= 256 else int(str(v))
@@ -289,8 +341,23 @@ def exc_name(e):
 
 # ----------------------------------------------------------------------------- building specs
 
-def base_iter(case, cat):
+_SUBCLASS = []
+
+
+def iter_class(case):
+    """`Iter`, or (case['subclass']) a user subclass of it: chaining must give specs of the same class"""
     from glom import Iter
+    if not case.get('subclass'):
+        return Iter
+    if not _SUBCLASS:
+        class MyIter(Iter):
+            pass
+        _SUBCLASS.append(MyIter)
+    return _SUBCLASS[0]
+
+
+def base_iter(case, cat):
+    Iter = iter_class(case)
     kw = {}
     if case.get('sentinel') is not None:
         kw['sentinel'] = dec(case['sentinel']['v'])
@@ -301,6 +368,12 @@ def base_iter(case, cat):
 
 def apply_op(it, op, cat):
     n = op['op']
+    if n == 'filter' and 'check' in op:
+        # a Check instance as the key of filter(): it is used as the check itself
+        from glom import Check, SKIP
+        c = op['check']
+        kw = {} if c['default'] is None else {'default': SKIP if c['default'] == 'SKIP' else 5}
+        return it.filter(Check(validate=cat[c['validate']], **kw))
     if n in ('map', 'filter', 'takewhile', 'dropwhile', 'unique'):
         if op.get('f') is None:                    # the method's default argument (key=T)
             return getattr(it, n)()
@@ -449,14 +522,26 @@ def run_all(spec, src, kind='gen', r=R_DEFAULT):
     try:
         res = glom.glom(source, spec.all())
     except Exception as e:
-        out = {'fin': {'raised': exc_name(e)}, 'pulls': st.pulled}
+        out = all_raised(e, st)
     else:
-        out = {'items': [enc(x) for x in res], 'fin': 'exhausted', 'pulls': st.pulled}
+        out = all_obs(res, st)
     out['src_after'] = probe(source, st, src, r)
     return out
 
 
+def all_obs(res, st):
+    """what `glom(target, spec.all())` returned: it must BE a list (not a tuple, not an iterator that happens to
+    hold the same items)"""
+    is_list = type(res) is list
+    return {'items': [enc(x) for x in res], 'fin': 'exhausted', 'pulls': st.pulled, 'is_list': is_list}
+
+
+def all_raised(e, st):
+    return {'items': [], 'fin': {'raised': exc_name(e)}, 'pulls': st.pulled, 'is_list': True}
+
+
 _DEFAULT = object()
+_NEVER = object()
 
 
 def first_spec(spec, mode, cat):
@@ -464,6 +549,11 @@ def first_spec(spec, mode, cat):
     `first(default=D)`, `first(key, default=D)`.  Without a key only truthy items are found, so
     a result of None can only be the default."""
     name = mode['first']
+    if mode.get('default') in ('T', 'Val'):
+        # a SPEC-LIKE default: `First` hands it to a `Call` as an argument, and `Call` evaluates it against the stream
+        import glom
+        d = glom.T if mode['default'] == 'T' else glom.Val(424243)
+        return (spec.first(default=d) if name is None else spec.first(cat[name], default=d)), _NEVER
     if name is None:
         if mode.get('nodefault'):
             return spec.first(), None
@@ -499,6 +589,8 @@ def run_impl(case):
         return run_streams(case)
     if case.get('kind') == 'boltons':
         return run_boltons(case)
+    if case.get('kind') == 'args':
+        return run_args(case)
     cat = catalogue()
     src, k = case['src'], case['k']
     sk, r = case.get('srckind', 'gen'), case.get('R', R_DEFAULT)
@@ -522,7 +614,8 @@ def run_impl(case):
     else:
         main = run_first(d2, src, mode, cat, sk, r)
     out['impl'] = {'main': main, 'repr_same': r0 == r1, 'before': before, 'after': after,
-                   'reused': reused, 'fresh': fresh}
+                   'reused': reused, 'fresh': fresh,
+                   'cls_kept': all(type(x) is iter_class(case) for x in (p, d1, d2))}
     return out
 
 
@@ -549,7 +642,7 @@ def run_reuse(case):
 
     def record(step, res):
         if step['mode'] == 'all':
-            obs.append({'items': [enc(x) for x in res], 'fin': 'exhausted', 'pulls': st.pulled})
+            obs.append(all_obs(res, st))
         elif res is (None if step['mode'].get('nodefault') else _DEFAULT):
             obs.append({'first': 'default', 'pulls': st.pulled})
         else:
@@ -557,11 +650,10 @@ def run_reuse(case):
         return res
 
     def failed(step, e):
-        if step['mode'] == 'take' or step['mode'] == 'all':
-            o = {'fin': {'raised': exc_name(e)}, 'pulls': st.pulled}
-            if step['mode'] == 'take':
-                o['items'] = []
-            obs.append(o)
+        if step['mode'] == 'take':
+            obs.append({'items': [], 'fin': {'raised': exc_name(e)}, 'pulls': st.pulled})
+        elif step['mode'] == 'all':
+            obs.append(all_raised(e, st))
         else:
             obs.append({'first': {'raised': exc_name(e)}, 'pulls': st.pulled})
 
@@ -646,9 +738,9 @@ def run_streams(case):
                 try:
                     res = glom.glom(sources[i], spec.all())
                 except Exception as e:
-                    obs.append({'fin': {'raised': exc_name(e)}, 'pulls': st.pulled})
+                    obs.append(all_raised(e, st))
                 else:
-                    obs.append({'items': [enc(x) for x in res], 'fin': 'exhausted', 'pulls': st.pulled})
+                    obs.append(all_obs(res, st))
             else:
                 try:
                     fs, dflt = first_spec(spec, mode, cat)
@@ -660,6 +752,87 @@ def run_streams(case):
     out = dict(case)
     out['impl'] = {'events': obs}
     return out
+
+
+# ----------------------------------------------------------------------------- builder methods at the edges of their arguments
+
+def raw(v):
+    """an argument value as the case carries it"""
+    if v is None or type(v) in (bool, int):
+        return v
+    if type(v) is float:
+        return {'fl': repr(v), 'trunc': int(v), 'integral': v == int(v)}
+    return {'str': v}
+
+
+def unraw(j):
+    if isinstance(j, dict):
+        return float(j['fl']) if 'fl' in j else ''.join(list(j['str']))
+    return j
+
+
+def run_args(case):
+    """Iter().<pre…>.<method>(<raw arguments>).<post…>: does the builder call raise (and what), does glom() raise while
+    it builds the chain (and how far has the source been pulled by then), or what does the stream give"""
+    import glom
+    cat = catalogue()
+    op, src, k = case['op'], case['src'], case['k']
+    out = dict(case)
+    try:
+        spec = chain(glom.Iter(), case['pre'], cat)
+        args = [unraw(a) for a in op.get('args', [])]
+        if op['m'] == 'split':
+            sep = op.get('sep')
+            kw = {}
+            if sep is not None:
+                kw['sep'] = dec(sep['scalar']) if 'scalar' in sep else [dec(x) for x in sep['set']]
+            spec = spec.split(maxsplit=unraw(op['maxsplit']), **kw)
+        elif op['m'] == 'chunked' and 'fill' in op:
+            spec = spec.chunked(*args, fill=dec(op['fill']['v']))
+        else:
+            spec = getattr(spec, op['m'])(*args)
+        spec = chain(spec, case['post'], cat)
+    except Exception as e:
+        out['impl'] = {'build': {'raised': exc_name(e)}}
+        return out
+    sk = case.get('srckind', 'gen')
+    run = run_all(spec, src, sk, 1) if case['mode'] == 'all' else run_take(spec, src, k, sk, 1)
+    out['impl'] = {'build': 'ok', 'run': run}
+    return out
+
+
+ARG_VALUES = [None, True, False, -1, 0, 1, 2, 5, 1.5, 0.5, -0.5, 2.0, -2.0, '2', 'a']
+
+
+def args_sweep(tier):
+    """every builder method that takes numbers x every kind of value a caller can write there (None, bools, negative /
+    zero / positive ints, whole and fractional floats, numeric and other strings), every arity of slice; bare, after a
+    windowed stage (whose priming shows WHEN a callback raises) and with a stage chained after it"""
+    vals = [raw(v) for v in ARG_VALUES]
+    ops = [{'m': 'slice', 'args': []}, {'m': 'slice', 'args': [raw(0), raw(1), raw(1), raw(1)]}]
+    ops += [{'m': 'slice', 'args': [v]} for v in vals]
+    ops += [{'m': 'slice', 'args': [a, b]} for a in vals[:8] + vals[8:9] + vals[14:] for b in (raw(None), raw(3), raw(-1), raw(1.0))]
+    ops += [{'m': 'slice', 'args': [raw(a), raw(b), c]} for a in (None, 1) for b in (None, 4) for c in vals]
+    ops += [{'m': 'limit', 'args': [v]} for v in vals]
+    ops += [{'m': 'chunked', 'args': [v]} for v in vals]
+    ops += [{'m': 'chunked', 'args': [v], 'fill': {'v': None}} for v in vals[:8]]
+    ops += [{'m': 'windowed', 'args': [v]} for v in vals]
+    ops += [{'m': 'split', 'sep': {'scalar': jv(0)}, 'maxsplit': v} for v in vals]
+    ops += [{'m': 'split', 'maxsplit': v} for v in vals[:8]]
+    pres = [[], [{'op': 'windowed', 'size': 2}], [{'op': 'map', 'f': 'inc'}]]
+    posts = [[], [{'op': 'map', 'f': 'T'}], [{'op': 'limit', 'n': 1}]]
+    srcs = [{'fin': [jv(x) for x in [1, 0, 2, 0, 3]], 'tail': None}, {'fin': [], 'tail': None},
+            {'fin': [jv(1)], 'tail': 'ValueError'}]
+    n = 0
+    for op in ops:
+        for pi, pre in enumerate(pres):
+            for qi, post in enumerate(posts):
+                for si, src in enumerate(srcs):
+                    n += 1
+                    if tier == 'quick' and (pi + qi + si) % 3 != n % 3:
+                        continue
+                    yield {'kind': 'args', 'pre': pre, 'op': op, 'post': post, 'src': src, 'k': (0, 2, 9)[n % 3],
+                           'mode': 'all' if n % 4 == 0 else 'take', 'srckind': SRCKINDS[n % 3]}
 
 
 # ----------------------------------------------------------------------------- boltons' helpers, called directly
@@ -791,8 +964,9 @@ SEQ_FNS = ['length', 'head', 'T', 'dbl']
 PREDS_INT = ['mod2', 'mod3', 'lt3', 'T', 'one', 'zero']
 PREDS_SEQ = ['length', 'T', 'one', 'zero', 'head']
 ALL_FNS = ['T', 'inc', 'dbl', 'neg', 'mod2', 'mod3', 'lt3', 'wrap', 'rng', 'pair', 'length', 'head',
-           'bad3', 'none', 'zero', 'one']
-BASE_SUBS = ['skip_odd', 'stop_ge4', 'skip_stop']
+           'bad3', 'none', 'zero', 'one', 'skip2', 'stop3', 'nobool2', 'pos']
+BASE_SUBS = ['skip_odd', 'stop_ge4', 'skip_stop', 'skip2', 'stop3']
+_SKIP, _STOP = {'k': 'SKIP'}, {'k': 'STOP'}
 # callable separators of split(): plain functions (split_iter calls them; a T-expression would not do)
 SEP_FNS_INT = ['mod2', 'mod3', 'lt3', 'zero', 'one', 'none']
 SEP_FNS_SEQ = ['length', 'zero', 'one', 'none']
@@ -906,6 +1080,8 @@ def gen_iter_case(rng, maxlen, focus):
     ty0 = 'seq' if rng.random() < 0.2 else 'int'
     infinite = rng.random() < 0.3
     case = {'kind': 'iter', 'sub': 'T', 'sentinel': None}
+    if rng.random() < 0.12:
+        case['subclass'] = True          # a user subclass of Iter: every chained spec must be of that class
     r = rng.random()
     ty = ty0
     if r < 0.15:
@@ -973,6 +1149,7 @@ def _R(n, v):
 
 
 WILD, RAISES, ODD = _R(91, {'o': 1}), _R(92, {'o': 2}), _R(93, {'o': 3})
+NOBOOL = _R(94, {'o': 4})
 EXOTIC = [WILD, RAISES, ODD]          # equal to everything / == raises / == has no truth value
 NOIDENT = 'no-identical-item'
 DEFAULT = 'default-sentinel'
@@ -1065,7 +1242,7 @@ def twin_sweep(tier):
                            'mode': 'all' if n % 2 else 'take', 'srckind': SRCKINDS[n % 3], 'R': 2}
 
 
-VALUE_KINDS = [None, _I(0), _I(3), _I(-4), _I(1000), _B(True), _B(False), _F(0), _F(3), _F(-1), _S(''), _S('a'), _S('ab'),
+VALUE_KINDS = [_SKIP, _STOP, NOBOOL, None, _I(0), _I(3), _I(-4), _I(1000), _B(True), _B(False), _F(0), _F(3), _F(-1), _S(''), _S('a'), _S('ab'),
                _T(), _T(_I(1), _I(2)), _L(), _L(_I(3)), _R(1, _F(3)), _R(2, _S('ab')), _R(3, _T(_I(3))), _R(4, _L(_I(1), _I(1))),
                _R(5, {'o': 0}), WILD, RAISES, ODD]
 
@@ -1087,6 +1264,39 @@ def catalogue_sweep(tier):
                 yield {'kind': 'iter', 'sub': f if op is None else 'T', 'sentinel': None, 'twin': True, 'p': [], 'e1': [],
                        'e2': [] if op is None else [op], 'src': {'fin': [v, jv(1)], 'tail': None}, 'k': 3,
                        'mode': 'take', 'srckind': 'gen', 'R': 1}
+    # SKIP / STOP produced by a function or lying in the source: a meaning only for Iter(subspec) itself
+    for src in ([1, 2, 3, 2, 4], [1, _SKIP, 3, _STOP, 4], [2, 2], [_STOP, 1]):
+        items = [x if isinstance(x, dict) else jv(x) for x in src]
+        for f in ('skip2', 'stop3'):
+            firsts = [{'op': 'map', 'f': f}, {'op': 'filter', 'f': f}, {'op': 'takewhile', 'f': f},
+                      {'op': 'dropwhile', 'f': f}, {'op': 'unique', 'f': f}, {'op': 'split', 'sep': {'fn': f}}, None]
+            for op in firsts:
+                for second in (None, {'op': 'map', 'f': 'T'}, {'op': 'filter'}, {'op': 'unique'}, {'op': 'chunked', 'size': 2},
+                               {'op': 'map', 'f': 'stop3'}):
+                    for sent in (None, {'v': _SKIP}, {'v': _STOP}) if second is None else (None,):
+                        n += 1
+                        ops = ([] if op is None else [op]) + ([] if second is None else [second])
+                        yield {'kind': 'iter', 'sub': f if op is None else 'T', 'sentinel': sent, 'twin': True, 'p': ops[:1],
+                               'e1': [], 'e2': ops[1:], 'src': {'fin': items, 'tail': None}, 'k': 9,
+                               'mode': 'all' if n % 2 else 'take', 'srckind': 'gen', 'R': 1}
+    # filter(Check(validate=…, default=…)): a Check instance IS the check; failing -> default (SKIP drops, anything else keeps)
+    # or CheckError; `res is False` only — a falsy 0 passes; a raising validator fails
+    for validate in ('pos', 'mod2', 'inc', 'bad3', 'nobool2', 'zero', 'none'):   # (plain callables: a T-expression is no validator)
+        for default in ('SKIP', 'keep', None):
+            for src in ([1, 0, 2, -1, 3], [None, 1], [_SKIP, 2, 3], []):
+                for pre in ([], [{'op': 'map', 'f': 'skip2'}]):
+                    n += 1
+                    items = [x if isinstance(x, dict) else jv(x) for x in src]
+                    yield {'kind': 'iter', 'sub': 'T', 'sentinel': None, 'twin': True, 'p': pre, 'e1': [],
+                           'e2': [{'op': 'filter', 'check': {'validate': validate, 'default': default}}],
+                           'src': {'fin': items, 'tail': None}, 'k': 9, 'mode': 'all' if n % 2 else 'take',
+                           'srckind': 'gen', 'R': 1}
+    # an item that IS the SKIP object reaches a filter whose key is truthy for it: a passing Check returns the item …
+    for key in ('one', 'wrap', 'pair'):
+        for first in ({'op': 'map', 'f': 'skip2'}, {'op': 'map', 'f': 'stop3'}):
+            yield {'kind': 'iter', 'sub': 'T', 'sentinel': None, 'twin': True, 'p': [first], 'e1': [],
+                   'e2': [{'op': 'filter', 'f': key}], 'src': {'fin': [jv(x) for x in [1, 2, 3, 2, 4]], 'tail': None},
+                   'k': 9, 'mode': 'take', 'srckind': 'gen', 'R': 1}
     mixed = [_I(1), _F(1), _B(True), _I(0), _F(0), _B(False), _S('ab'), _S('ab'), _T(_I(1)), _T(_F(1)), _T(_B(True)),
              _R(1, _F(1)), _R(1, _F(1)), WILD, WILD, _R(5, {'o': 0}), _R(6, {'o': 0}), None]
     for op in ({'op': 'unique'}, {'op': 'unique', 'f': 'pair'}, {'op': 'split', 'sep': {'scalar': _I(1)}},
@@ -1181,7 +1391,7 @@ def gen_streams_case(rng):
         # most streams come from the SAME spec object
         spec = 0 if rng.random() < 0.5 else rng.randrange(nspecs)
         m = rng.random()
-        mode = 'take' if m < 0.8 else 'all' if m < 0.92 else gen_first_mode(rng)
+        mode = 'take' if m < 0.8 else 'all' if m < 0.92 else gen_first_mode(rng, False)
         streams.append({'spec': spec, 'src': src, 'mode': mode, 'srckind': gen_srckind(rng)})
     order = []
     for i, sj in enumerate(streams):
@@ -1229,13 +1439,16 @@ def streams_sweep(tier):
                            'events': schedule(order, len(cs), n % 2 == 0)}
 
 
-def gen_first_mode(rng):
+def gen_first_mode(rng, spec_default=True):
     r = rng.random()
     if r < 0.15:
         return {'first': None, 'nodefault': True}     # first()
     if r < 0.3:
         return {'first': None}                        # first(default=D)
-    return {'first': rng.choice(['T', 'mod2', 'lt3', 'zero', 'one', 'length', 'bad3'])}
+    mode = {'first': rng.choice(['T', 'mod2', 'lt3', 'zero', 'one', 'length', 'bad3'])}
+    if spec_default and r > 0.85:
+        mode['default'] = rng.choice(['T', 'Val'])
+    return mode
 
 
 SRCKINDS = ['gen', 'obj', 'plain']
@@ -1302,7 +1515,7 @@ def gen_reuse_case(rng):
         elif m < 0.85:
             steps.append({'pipe': i, 'mode': 'all'})
         else:
-            steps.append({'pipe': i, 'mode': gen_first_mode(rng)})
+            steps.append({'pipe': i, 'mode': gen_first_mode(rng, False)})
     return {'kind': 'reuse', 'srckind': gen_srckind(rng), 'src': src, 'R': rng.choice(R_CHOICES),
             'pipes': pipes, 'form': form, 'steps': steps}
 
@@ -1370,7 +1583,8 @@ def param_ops():
 PARAM_SOURCES = [[], [1], [0, 0], [1, 2, 0], [1, 0, 0, 2], [3, 1, 2, 0, 2], [1, 2, 0, None, None, 3, 0, 4],
                  [[1, 2], [], (3,), [], [0, 0]]]
 PARAM_FIRSTS = [{'first': None, 'nodefault': True}, {'first': None}, {'first': 'mod2'}, {'first': 'zero'},
-                {'first': 'one'}, {'first': 'lt3'}]
+                {'first': 'one'}, {'first': 'lt3'}, {'first': None, 'default': 'T'}, {'first': 'zero', 'default': 'T'},
+                {'first': 'zero', 'default': 'Val'}, {'first': 'mod2', 'default': 'T'}]
 
 
 def param_sweep(tier):
@@ -1395,6 +1609,7 @@ def exhaustive(tier):
     yield from twin_sweep(tier)
     yield from catalogue_sweep(tier)
     yield from boltons_sweep(tier)
+    yield from args_sweep(tier)
     yield from streams_sweep(tier)
     if tier == 'quick':
         plan = [(0, EXH_SOURCES[:2], [0, 1, 2, 3, 4, 5, 6], DEFAULT_OPS),
@@ -1477,7 +1692,7 @@ def corpus():
 def key(case):
     return {k: case.get(k) for k in ('kind', 'sub', 'sentinel', 'p', 'e1', 'e2', 'src', 'k', 'mode', 'target',
                                      'srckind', 'R', 'pipes', 'form', 'steps', 'base', 'derived', 'streams',
-                                     'events', 'op')}
+                                     'events', 'op', 'subclass', 'pre', 'post')}
 
 
 def _raised(o):
@@ -1493,6 +1708,8 @@ def nontrivial(case, verdict):
                                      for o in impl.get('events', []))
     if case.get('kind') == 'boltons':
         return len(impl.get('events', [])) >= 2 or isinstance(impl.get('init'), dict)
+    if case.get('kind') == 'args':
+        return True
     if case.get('twin'):
         return True
     if case.get('kind') == 'reuse':
@@ -1602,6 +1819,18 @@ def shrink_streams(case):
 
 
 def shrink(case):
+    if case.get('kind') == 'args':
+        base = {k: v for k, v in case.items() if not k.startswith('impl')}
+        if case['pre']:
+            yield dict(base, pre=[])
+        if case['post']:
+            yield dict(base, post=[])
+        items = case['src']['fin']
+        for i in range(len(items)):
+            yield dict(base, src=dict(case['src'], fin=items[:i] + items[i + 1:]))
+        if case['src'].get('tail'):
+            yield dict(base, src=dict(case['src'], tail=None))
+        return
     if case.get('kind') == 'boltons':
         base = {k: v for k, v in case.items() if not k.startswith('impl')}
         items = case['src']['fin']
